@@ -84,7 +84,7 @@ class C04(Check):
         self.Size = common.Size
         KittyImage._supported = True
         cls = BlockImage if shape["family"] == "text" else KittyImage
-        self.img = cls(Image.new("RGB", (1, 1)), width=1, height=1)
+        self.mk = lambda: cls(Image.new("RGB", (1, 1)), width=1, height=1)
         self.term_image = term_image
 
     def env(self, eng, shape, suffix=""):
@@ -102,7 +102,7 @@ class C04(Check):
 
     def body(self, eng, shape):
         S = self.Size
-        img = self.img
+        img = self.mk()  # a fresh image object per path (nothing an instance memoizes may leak between paths)
         B = shape["B"]
         mode = shape["mode"]
         ow, oh = eng.int("ow", 1, B), eng.int("oh", 1, B)
@@ -139,7 +139,10 @@ class C04(Check):
             eng.claim("dynamic: render uses a fresh evaluation", sym_and(seen[0] == fresh[0], seen[1] == fresh[1]))
             tc2, tl2, cr2, _ = self.env(eng, shape, "_2")
             rs = img.rendered_size
-            fresh2 = img._valid_size(m, None)
+            # what a brand-new image object computes in the new environment (the warm one must not lag behind)
+            other = self.mk()
+            other._original_size = (ow, oh)
+            fresh2 = other._valid_size(m, None)
             eng.claim("dynamic: rendered_size follows a later terminal/ratio change", sym_and(rs[0] == fresh2[0], rs[1] == fresh2[1]))
             raised = False
             try:
